@@ -265,8 +265,7 @@ def run(ctx):
     ctx.rule('C20.R2', 'no secret-bearing expression reaches the message of a KMIP error raised in the server (it becomes result_message)')
     ctx.rule('C20.R3', 'default levels: the server default logging level is INFO and KMIPProtocol forces INFO when its logger level is unset; message encodings are logged at DEBUG only')
     # ---------------- engine.py through the abstract interpreter
-    ai = EngineAI(src)
-    ai.run_all()
+    ai = EngineAI.shared(src)
     if ai.bounds_hit:
         raise AnalysisError('analysis bound hit: %s' % ai.bounds_hit[:3])
     logs = {}
